@@ -303,6 +303,32 @@ func scenarioC06(c *RunCtx) {
 		}
 	}
 
+	// A genome whose trait ids are 1..n in another order than the trait list (1,3,2 as in the repository's own test
+	// genome), nodes and genes carrying those traits: duplicated directly, nothing else is done with it (crossover indexes
+	// traits by id offset, which C01 and C04 exclude by asking for consecutive ids; duplication must look a trait up by
+	// its id).
+	if t.Chance("permutedTraitIds", 1, 4) {
+		src := BuildGenome(t, GenomeSpec{AllowDisabled: true, MaxHidden: 3, ActSwarm: true, PermuteTraitIds: true})
+		srcRec := Canon(src)
+		var cp *genetics.Genome
+		var derr error
+		c.Lib("duplicate", func() { cp, derr = genetics.VerifDuplicate(src, src.Id+1000) })
+		c.Steps++
+		if derr != nil {
+			c.Fail("duplicate:error", "duplicate of a genome with trait ids out of list order returned %v\n%s", derr, srcRec.Pretty())
+		}
+		if d1, d2 := srcRec.Dump(false), Canon(cp).Dump(false); d1 != d2 {
+			c.Fail("duplicate:differs", "the duplicate of a genome whose trait ids are not in list order differs from the original: %s\noriginal: %s\ncopy: %s", FirstDiff(d1, d2), srcRec.Pretty(), Canon(cp).Pretty())
+		}
+		if d1, d2 := srcRec.Dump(true), Canon(src).Dump(true); d1 != d2 {
+			c.Fail("duplicate:source-modified", "duplicating changed the source: %s", FirstDiff(d1, d2))
+		}
+		if sh := sharedState(src, cp); sh != "" {
+			c.Fail("duplicate:shared-state", "the duplicate shares state with the original: %s", sh)
+		}
+		c.Count("probe.source.trait_ids_out_of_list_order")
+	}
+
 	env := NewOpsEnvFromWorld(c, w, t.Range("epochs", 0, maxEpochs), t.Range("pool", 1, 4))
 	// modular sources
 	switch t.Pick("modular", 3, 1, 1) {
